@@ -24,11 +24,13 @@ from .hist import TOOL, note_as_sets
 
 GEN_FILES = ["GenProfile", "GenInternalGit"]
 DRIVERS = ["profile"]
+PROPERTY_FILES = ["C12", "C12_quote"]
 THEOREMS = ["C12_strip_safe", "C12_pins_present", "C12_profile_pins", "C12_config_independent", "C12_drop_complete",
             "C12_nodash_tame", "C12_algorithm_override_refuted", "C12_split_value_override_refuted",
             "C12_pin_not_shadowed", "C12_profile_pins_all_args_refuted", "C12_inventory_pinned",
             "C12_global_args_normalised", "C12_global_args_end_in_root", "C12_no_pager", "C12_hooks_prefix_keeps_subcommand",
-            "C12_ex_canonical_patch", "C12_ex_config_matters_unpinned", "C12_ex_pinned", "C12_ex_hyps", "C12_ex_global_mix"]
+            "C12_ex_canonical_patch", "C12_ex_config_matters_unpinned", "C12_ex_pinned", "C12_ex_hyps", "C12_ex_global_mix",
+            "C12_header_path_decodes", "C12_header_path_quotepath_independent", "C12_ex_mixed_name"]
 CLAIM = {
     "text": "Partial proof. Machine-checked (Coq 8.16.1, closed) over an executable Gallina model of "
             "first_git_subcommand_index, strip_profile_conflicts, profile_options, args_with_internal_git_profile, "
@@ -71,8 +73,10 @@ ASSUMPTIONS = [
     "git is 2.39.x (/usr/bin/git); option spellings are complete (git also accepts unambiguous abbreviations of long "
     "options such as --no-pref: not modelled, internal callers never use them)",
     "computed tokens that internal callers place before `--` (revisions, object names, ranges) do not start with a dash",
-    "NOT pinned by the profiles, handled elsewhere: core.quotePath for patch headers (the unquoting parser, "
-    "Properties/C01_fmt.v C01_fmt_quotepath_independent; path lists are read with -z: nul_paths_ok); number of context "
+    "NOT pinned by the profiles, handled elsewhere: core.quotePath for patch headers (the unquoting parser: "
+    "Properties/C12_quote.v C12_header_path_quotepath_independent over the DiffFmt slice's model of quote_c_style / "
+    "from_utf8_lossy / unescape_git_path, for every valid-UTF-8 name, tied to the real function on generated names; path "
+    "lists are read with -z: nul_paths_ok); number of context "
     "lines and rename detection for PatchParse (literal -U0 / --no-renames in each template: C12_inventory_pinned); the "
     "pager (global --no-pager: C12_no_pager; output is captured through a pipe); GIT_EXTERNAL_DIFF / GIT_DIFF_OPTS are "
     "removed from the environment of every internal git (gen_env_removed)",
@@ -362,7 +366,7 @@ def scenario(args):
     base, seed, idx, draws = args[:4]
     uid = args[4] if len(args) > 4 else str(idx)          # scratch names must be unique per work item
     r = C.Rng(seed).fork(f"c12-{idx}")
-    script = hist.gen_script(r.fork("script"))
+    script = hist.gen_script(r.fork("script"), names=HIST_NAMES)
     sim = CSim(base, f"h{uid}b")
     try:
         ref = run_history(sim, script)
@@ -1005,6 +1009,175 @@ def witness_k4(base):
     return not (res["default"] == res["renames_false"] == res["renames_copies"]), res
 
 
+# ====================================================================== core.quotePath x file-name matrix
+# names git never quotes / quotes only under core.quotePath=true (non-ASCII) / always C-quotes (double quote, backslash,
+# TAB, control character) / MIXED (non-ASCII together with an always-quoted character: with core.quotePath=false the
+# quoted form then carries raw UTF-8 between the quotes), in the root and in subdirectories
+QP_NAMES = [
+    "plain.txt",
+    "r\u00e9sum\u00e9.txt", "\u65e5\u672c\u8a9e.md",
+    'a"b.txt', "tab\there.txt", "back\\slash.txt", "bell\x07x.txt",
+    'r\u00e9sum\u00e9_"final".txt', "\u00fc\ttab.txt", "\u65e5\u672c\\\u8a9e.txt", '\U0001f600"q.txt',
+    "dir \u00e9/na\u00efve.py", 'dir \u00e9/q"x.rs', 'dir \u00e9/mix\u00e9"q.txt',
+    's"ub/\u00e9.txt', 's"ub/\u00e9\\b.txt',
+]
+HIST_NAMES = list(hist.NAMES) + ['mi\u00e9"x.txt', "dir \u00e9/t\tab \u00fc.py"]
+QP_CONFIGS = {"default": [], "quotepath_true": ["quotepath_on"], "quotepath_false": ["quotepath_off"]}
+SETTINGS["quotepath_on"] = {"cfg": [("core", "quotePath", "true")]}
+SETTING_NAMES = sorted(SETTINGS)
+
+
+def _obs(sim, paths, with_stats=True):
+    h = sim.head()
+    n = sim.note(h)
+    ob = {"note": None if n is None else hist.jsonable(note_as_sets(n)), "blame": {}, "stats": None}
+    for p in paths:
+        b = sim.blame(p)
+        ob["blame"][p] = None if b is None else {str(k): v for k, v in sorted(b.items())}
+    if with_stats:
+        rc, so, _ = sim.gitai("stats", h, "--json")
+        try:
+            ob["stats"] = json.loads(so) if rc == 0 else {"rc": rc}
+        except Exception:
+            ob["stats"] = {"unparseable": so[:200]}
+    return ob
+
+
+def qp_history(args):
+    """one fixed history over QP_NAMES under one core.quotePath configuration: commit, amend, rebase (rewrite path);
+    observations after each: note, blame of every file, stats"""
+    base, cfgname = args
+    sim = CSim(base, "qp" + cfgname, settings=QP_CONFIGS[cfgname])
+    try:
+        def body(k, first=False, last=False, mid="four"):
+            ls = [f"{k} one"] + ([f"{k} ai first"] if first else []) + [f"{k} two", f"{k} three", f"{k} {mid}", f"{k} five", f"{k} six"] \
+                + ([f"{k} ai last"] if last else [])
+            return "".join(l + "\n" for l in ls)
+        files = {p: body(k) for k, p in enumerate(QP_NAMES)}
+        sim.init(files)
+        sim.setup_context({"base": files})
+        obs = []
+        # round 1: an agent inserts a line into every file; commit
+        for k, p in enumerate(QP_NAMES):
+            sim.checkpoint_human([p])
+            sim.write(p, body(k, first=True))
+            sim.checkpoint_ai("s1" if k % 2 else "s2", [p], tool=TOOL)
+        sim.realgit("add", "-A")
+        rc, _, err = sim.git("commit", "-q", "-m", "round 1")
+        obs.append(dict(_obs(sim, QP_NAMES), step="commit", rc=rc))
+        # round 2: more agent lines in every second file; amend
+        for k, p in enumerate(QP_NAMES):
+            if k % 2 == 0:
+                sim.checkpoint_human([p])
+                sim.write(p, body(k, first=True, last=True))
+                sim.checkpoint_ai("s1", [p], tool=TOOL)
+        sim.realgit("add", "-A")
+        rc, _, err = sim.git("commit", "-q", "--amend", "-m", "round 1 amended")
+        obs.append(dict(_obs(sim, QP_NAMES), step="amend", rc=rc))
+        # rewrite path: another branch changes a middle line of every file; rebase the AI commit onto it
+        sim.realgit("checkout", "-q", "-b", "side", "HEAD~1")
+        for k, p in enumerate(QP_NAMES):
+            sim.write(p, body(k, mid="FOUR by a person"))
+        sim.realgit("add", "-A")
+        sim.git("commit", "-q", "-m", "side")
+        sim.realgit("checkout", "-q", "main")
+        rc, _, err = sim.git("rebase", "side")
+        obs.append(dict(_obs(sim, QP_NAMES), step="rebase", rc=rc))
+        return {"cfg": cfgname, "obs": obs, "log": sim.log[-60:]}
+    finally:
+        shutil.rmtree(sim.base, ignore_errors=True)
+
+
+def py_quote_c_style(name, quotepath):
+    """git's quote_c_style (quote.c), the oracle's own implementation: bytes -> bytes"""
+    b = name.encode("utf-8")
+    letters = {7: "a", 8: "b", 9: "t", 10: "n", 11: "v", 12: "f", 13: "r", 34: '"', 92: "\\"}
+
+    def must(c):
+        return c < 32 or c in (34, 92, 127) or (quotepath and c >= 128)
+    if not any(must(c) for c in b):
+        return b
+    out = bytearray(b'"')
+    for c in b:
+        if must(c):
+            out += (b"\\" + letters[c].encode()) if c in letters else (b"\\%03o" % c)
+        else:
+            out.append(c)
+    return bytes(out + b'"')
+
+
+def quotepath_monitor(ctx, obligations, violations, cov):
+    """the explicit obligation behind `core.quotePath is not pinned for patch text`: decoding git's quoted path gives the
+    name under either setting — real utils::unescape_git_path (in-process) on generated names, the DiffFmt model beside it"""
+    import subprocess
+    r = ctx.rng.fork("quotepath")
+    # the oracle's quote_c_style against /usr/bin/git on the matrix names
+    d = os.path.join(ctx.scratch, "qpnames")
+    os.makedirs(d)
+    env = {"PATH": os.environ.get("PATH", "/usr/bin:/bin"), "HOME": d, "GIT_CONFIG_NOSYSTEM": "1", "LC_ALL": "C"}
+    subprocess.run(["/usr/bin/git", "init", "-q", d], env=env, check=True)
+    for p in QP_NAMES:
+        os.makedirs(os.path.dirname(os.path.join(d, p)) or d, exist_ok=True)
+        open(os.path.join(d, p), "w").write("x\n")
+    subprocess.run(["/usr/bin/git", "-C", d, "add", "-A"], env=env, check=True)
+    qbad = []
+    for qp in (True, False):
+        out = subprocess.run(["/usr/bin/git", "-C", d, "-c", f"core.quotePath={'true' if qp else 'false'}", "ls-files"], env=env,
+                             stdout=subprocess.PIPE).stdout.split(b"\n")
+        want = sorted(py_quote_c_style(p, qp) for p in QP_NAMES)
+        if sorted(x for x in out if x) != want:
+            qbad.append(f"quotePath={qp}: git {sorted(x for x in out if x)[:3]} oracle {want[:3]}")
+    obligations.append(("monitor:the oracle's quote_c_style agrees with git ls-files under core.quotePath=true and =false",
+                        not qbad, "; ".join(qbad)[:400]))
+    # generated names
+    alpha = list("abz09 ._-+@") + ["\u00e9", "\u00fc", "\u00df", "\u0416", "\u65e5", "\u8a9e", "\U0001f600", "\u00a0", "\u2028"]
+    always = ['"', "\\", "\t", "\x07", "\x01", "\x7f", "\n", "\r", "\x1b"]
+    names = list(QP_NAMES) + HIST_NAMES
+    kinds = {"ascii": 0, "nonascii": 0, "always_quoted": 0, "mixed": 0}
+    for _ in range(1500 if ctx.tier == "quick" else 30000):
+        n = r.range(1, 8)
+        k = r.weighted([(1, "ascii"), (2, "nonascii"), (2, "always_quoted"), (4, "mixed")])
+        pool = {"ascii": alpha[:11], "nonascii": alpha, "always_quoted": alpha[:11] + always, "mixed": alpha + always}[k]
+        nm = "".join(r.pick(pool) for _ in range(n))
+        if r.chance(1, 3):
+            nm = r.pick(["dir/", "d \u00e9/", 's"/']) + nm
+        names.append(nm)
+    cases, meta = [], []
+    for k, nm in enumerate(names):
+        na = any(ord(c) >= 128 for c in nm)
+        aq = any(ord(c) < 32 or c in '"\\\x7f' for c in nm)
+        kinds["mixed" if na and aq else "nonascii" if na else "always_quoted" if aq else "ascii"] += 1
+        for qp in (True, False):
+            for pre in ("", "b/"):
+                text = py_quote_c_style(pre + nm, qp).decode("utf-8", "replace")
+                cases.append((f"q{k}{'t' if qp else 'f'}{len(pre)}", C.sx(C.cps(text))))
+                meta.append((pre + nm, qp, text))
+    impl = C.run_cases(C.VHARNESS, "c01-unescape", cases)
+    dpath = C.driver_path("difffmt")
+    model = C.run_cases(dpath, "c01-unescape", cases) if (ctx.model_ok and os.path.exists(dpath)) else {}
+    mism, n_bad = [], 0
+    for (i, _), (want, qp, text) in zip(cases, meta):
+        a = impl.get(i)
+        got = None
+        if a and a.startswith("(ok"):
+            got = C.uncps(C.sx_parse_many(a)[0][1])
+        if got != want:
+            n_bad += 1
+            if n_bad <= 3:
+                violations.append((f"core.quotePath={'true' if qp else 'false'}: git prints the path {want!r} as {text!r}; "
+                                   f"unescape_git_path reads it back as {got!r} (the file's hunks are then filed under a wrong name "
+                                   f"and its AI lines are dropped from the note)",
+                                   {"kind": "unescape", "name": want, "quotepath": qp, "git_prints": text, "read_back": got}))
+        if model and model.get(i) != a:
+            mism.append(f"{text!r}: impl {a} model {model.get(i)}")
+    if model:
+        obligations.append(("tie:correspondence Model/DiffFmt.v unescape_git_path vs utils::unescape_git_path on C-quoted generated "
+                            "names (both settings of core.quotePath)", not mism, "; ".join(mism[:2])[:500]))
+    cov["quotepath_names"] = {"names": len(names), "decodings": len(cases), "by_kind": kinds, "wrong": n_bad}
+    cov["evaluations"] += len(cases)
+    return kinds["mixed"] + kinds["nonascii"] + kinds["always_quoted"]
+
+
 # ====================================================================== executed-argv monitor
 def argv_monitor(base):
     """a recording git stand-in (git_path): every diff-family command git-ai actually executes for one history
@@ -1052,6 +1225,27 @@ def run(ctx):
 
     distinct = inprocess(ctx, obligations, violations, known_seen, cov)
     n_norm = normalisation(ctx, obligations, violations, cov)
+    n_norm += quotepath_monitor(ctx, obligations, violations, cov)
+
+    # ---- core.quotePath x file names (non-ASCII, always-quoted, mixed; root and subdirectories) through commit, amend, rebase
+    qres = C.parallel_map(qp_history, [(ctx.scratch, c) for c in QP_CONFIGS])
+    qref = next((q for q in qres if q.get("cfg") == "default"), None)
+    for q in qres:
+        if "error" in q:
+            violations.append(("engine error (quotePath matrix): " + q["error"][-300:], q))
+        elif qref is not None and q["obs"] != qref["obs"]:
+            k = next(i for i, (a, b) in enumerate(zip(qref["obs"], q["obs"])) if a != b)
+            a, b = qref["obs"][k], q["obs"][k]
+            what = [f for f in ("note", "blame", "stats") if a[f] != b[f]]
+            files = [p for p in QP_NAMES if (a["note"] or {}).get(p) != (b["note"] or {}).get(p) or a["blame"].get(p) != b["blame"].get(p)]
+            violations.append((f"{', '.join(what)} after `{a['step']}` differ between the default configuration and {q['cfg']} for the "
+                               f"files {files[:4]}",
+                               {"kind": "quotepath-matrix", "config": q["cfg"], "step": a["step"], "files": files,
+                                "default": {f: a[f] for f in what}, "variant": {f: b[f] for f in what}, "commands": q["log"]}))
+    if qref is not None:
+        cov["quotepath_matrix"] = {"names": len(QP_NAMES), "configs": sorted(QP_CONFIGS), "steps": [o["step"] for o in qref["obs"]],
+                                   "files_attributed_after_commit": len(qref["obs"][0]["note"] or {})}
+    cov["evaluations"] += len(qres)
     gtable(ctx, obligations, cov)
     inventory(ctx, obligations, cov)
 
